@@ -7,6 +7,9 @@ EXTENDS SymOrbits
 CONSTANTS LATS, NSITES,
           POSCAT,     \* name of the position catalogue
           MAGNETIC,   \* "none"; "z": sites may carry moments 0, +z, -z; "zx": also +x
+          BLOCKMAP,   \* how the image of a hopping triple (R, a, b) between two projection blocks finds its sites: "own" = a through the
+                      \* site map of its block, b through the site map of its block (the code); "row" = both through the map of the
+                      \* row block (must fail BlockTripleMap)
           SUBREPS     \* symmetrisation with a subgroup H (option use_symmetries_index): "sub" = representatives of the triples
                       \* w.r.t. H (the code); "full" = w.r.t. the full group while averaging uses H (must fail SubReach)
 
@@ -38,8 +41,16 @@ SubIdx(o, kind) ==
 
 (* R vectors used for the triple maps: deliberately not closed under the point groups (images may fall outside) *)
 RL == << <<0, 0, 0>>, <<1, 0, 0>>, <<0, 1, 0>>, <<0, 0, 1>>, <<-1, 0, 0>>, <<1, 1, 0>>, <<0, -1, 1>>, <<1, 1, 1>>, <<0, 0, -2>> >>
-Structures == UNION { {[n \in 1..ns |-> [type |-> ty[n], pos |-> ps[n], mom |-> ms[n]]] :
+(* class two_multi_site_blocks_permuted_differently: two species, each an orbit of two sites, and an operation that permutes
+   the two species differently as permutations of the listed sites (POSCAT = "twoblocks"; NSITES is ignored) *)
+Site(ty, p) == [type |-> ty, pos |-> p, mom |-> <<0, 0, 0>>]
+TwoBlockInPlane == <<Site(1, <<1, 0, 0>>), Site(1, <<3, 0, 0>>), Site(2, <<0, 1, 0>>), Site(2, <<0, 3, 0>>)>>   \* not in the class on the hexagonal cell
+TwoBlockStructures == { TwoBlockInPlane,
+                        <<Site(1, <<1, 0, 0>>), Site(1, <<3, 0, 0>>), Site(2, <<0, 0, 3>>), Site(2, <<0, 0, 1>>)>>,
+                        <<Site(1, <<1, 1, 0>>), Site(2, <<2, 0, 3>>), Site(1, <<3, 3, 0>>), Site(2, <<2, 0, 1>>)>> }
+GenericStructures == UNION { {[n \in 1..ns |-> [type |-> ty[n], pos |-> ps[n], mom |-> ms[n]]] :
                            ty \in {f \in [1..ns -> 1..2] : f[1] = 1}, ps \in [1..ns -> POS], ms \in [1..ns -> MOMS]} : ns \in NSITES }
+Structures == IF POSCAT = "twoblocks" THEN (IF lat = "hex" THEN TwoBlockStructures \ {TwoBlockInPlane} ELSE TwoBlockStructures) ELSE GenericStructures
 G == {ops[n] : n \in 1..Len(ops)}
 AllSites == 1..Len(sites)
 (* cached action: operation number n on a triple, using the tabulated site maps and shifts *)
@@ -115,6 +126,21 @@ Flip(x) == <<VNeg(x[1]), x[3], x[2]>>
 FullShellsAllowed == Built => (IF lat = "hex" THEN {"s", "p", "d"} ELSE {"s", "p", "d", "sp3d2", "t2g", "eg"}) \subseteq shells
 (* equivalent sites are alike *)
 MixedOrbitClosed == Built => \A n \in 1..Len(ops) : \A k \in AllSites : (k \in mixed) <=> (amap[n][k] \in mixed)
+(* projection blocks = the species, sites in the listed order.  The site map of a block is the permutation of its own list; the
+   image of a triple between two blocks takes the row site through the map of the row block and the column site through the
+   map of the column block *)
+BlockOf(ty) == SelectSeq([k \in 1..Len(sites) |-> k], LAMBDA k : sites[k].type = ty)
+PosIn(blk, k) == CHOOSE i \in 1..Len(blk) : blk[i] = k
+LocalMap(blk, n) == [i \in 1..Len(blk) |-> PosIn(blk, amap[n][blk[i]])]
+Types == {sites[k].type : k \in AllSites}
+BlockTripleMap == Built => \A ta, tb \in Types : LET A == BlockOf(ta)  B == BlockOf(tb) IN
+                     \A n \in 1..Len(ops) : \A i \in 1..Len(A) : \A j \in 1..Len(B) :
+                        LET ma == LocalMap(A, n)  mb == IF BLOCKMAP = "row" THEN LocalMap(A, n) ELSE LocalMap(B, n)
+                            y == TM(n, <<RL[2], A[i], B[j]>>)
+                        IN (Len(A) = Len(B) \/ BLOCKMAP = "own") => (y[2] = A[ma[i]] /\ y[3] = B[mb[j]])
+(* the class is not empty in the catalogue "twoblocks" *)
+BlocksPermutedDifferently == (Built /\ POSCAT = "twoblocks") =>
+                     \E n \in 1..Len(ops) : Len(BlockOf(1)) > 1 /\ Len(BlockOf(1)) = Len(BlockOf(2)) /\ LocalMap(BlockOf(1), n) # LocalMap(BlockOf(2), n)
 (* symmetrisation with a subgroup: the selected operations form a group, and the representatives reach every listed triple
    under the operations that are actually applied *)
 SubgroupClosed == Built => \A kind \in SubKinds : LET H == sub[kind] IN
